@@ -1894,12 +1894,24 @@ func (bc *Blockchain) AddBlock(block *block.Block) error {
 		}
 		// The scratch pool used below doesn't fail on a transaction that
 		// conflicts with a pooled one, it replaces it if the fee allows that.
+		var oracleResponses map[uint64]struct{}
 		for _, tx := range block.Transactions {
 			for _, attr := range tx.GetAttributes(transaction.ConflictsT) {
 				h := attr.Value.(*transaction.Conflicts).Hash
 				if _, ok := seen[h]; ok {
 					return fmt.Errorf("invalid block: transaction %s conflicts with transaction %s of the same block", tx.Hash().StringLE(), h.StringLE())
 				}
+			}
+			// The same goes for two responses to one oracle request.
+			for _, attr := range tx.GetAttributes(transaction.OracleResponseT) {
+				id := attr.Value.(*transaction.OracleResponse).ID
+				if _, ok := oracleResponses[id]; ok {
+					return fmt.Errorf("invalid block: more than one response to oracle request %d", id)
+				}
+				if oracleResponses == nil {
+					oracleResponses = make(map[uint64]struct{})
+				}
+				oracleResponses[id] = struct{}{}
 			}
 		}
 		mp = mempool.New(len(block.Transactions), false, nil)
